@@ -1,2 +1,47 @@
-(* C09 (statements follow) *)
-From GJS Require Import Base Regex Schema GoType Exec.
+(* C09 - absent properties take their schema default; present values win.
+   Statements only; every proof is `exact <lemma>`; Print Assumptions under each. *)
+From GJS Require Import Base Regex Schema GoType Gen Exec Valid ExecP GenP CoreP.
+
+(* the default validator assigns the default exactly when the raw key is missing or null ... *)
+Theorem C09_absent_or_null : forall dvf raw st fname jname ty dv d st',
+  raw <> None -> raw_missing raw jname = true -> dvf ty dv = Some d -> set_plain fname d st = Some st' ->
+  after_step dvf raw st (VDefault fname jname ty dv) = Ok st'.
+Proof. exact vdefault_applies. Qed.
+Print Assumptions C09_absent_or_null.
+(* ... and leaves a present value alone *)
+Theorem C09_present : forall dvf raw st fname jname ty dv,
+  raw <> None -> raw_missing raw jname = false -> after_step dvf raw st (VDefault fname jname ty dv) = Ok st.
+Proof. exact vdefault_present. Qed.
+Print Assumptions C09_present.
+
+(* a defaulted property is a value field (not pointer-wrapped), is exempt from `required`, and its
+   default assignment runs before its own validators *)
+Theorem C09_field : forall defs c self fname k p ty bp dv, c_default (s_con p) = Some dv ->
+  make_field defs c self fname k p ty bp
+  = (mkField fname k (negb (mem k (c_required c))) ty (Some (default_property_value p dv)) false, false,
+     VDefault fname k ty (default_property_value p dv) :: field_validators fname k (s_con p) bp ty false).
+Proof. exact make_field_default. Qed.
+Print Assumptions C09_field.
+
+(* other validators never modify a field: the decoded document value is what remains *)
+Theorem C09_other_validators_keep : forall dvf raw st st' v fname x,
+  fname <> [] -> touches fname v = false -> after_step dvf raw st v = Ok st' -> get_plain fname st = Some x -> get_plain fname st' = Some x.
+Proof. exact after_step_keeps. Qed.
+Print Assumptions C09_other_validators_keep.
+
+(* the literal has the Go type of the field: scalars, one-level arrays, string enums, referenced definitions *)
+Example C09_literals :
+  default_val [] 5 TString (JStr [104]%N) = Some (GS [104]%N) /\
+  default_val [] 5 (TInt KInt) (JInt 7) = Some (GI 7) /\
+  default_val [] 5 TFloat (JQ (5 # 2)) = Some (GF (5 # 2)) /\
+  default_val [] 5 (TSlice true TString) (JArr [JStr [97]%N]) = Some (GL [GS [97]%N]) /\
+  default_val [] 5 (TInt KInt) (JQ (3 # 2)) = None.
+Proof. vm_compute. repeat split; reflexivity. Qed.
+
+(* refuted in full (D36): a typed additionalProperties replaces the declared default by an empty map *)
+Theorem C09_refuted_map_default : exists p dv, default_property_value p dv <> dv.
+Proof.
+  exists (Sch empty_con [] (Some (Sch (mkC [SString] None None [] 0 0 0 0 None None (mkBounds None None None None) None None) [] None false None [] [])) false None [] []),
+         (JObj [([107]%N, JStr [118]%N)]).
+  cbn. discriminate.
+Qed.
